@@ -158,10 +158,12 @@ def c_expand_out(out):
     return f'(Ok ({vals}, {cnat(out[2])}))'
 
 
-def expand_ties(res, rng, n_valid, n_bad):
+def expand_ties(res, rng, n_valid, n_bad, max_exhaustive=2):
     cases, meta = [], []
-    for i in range(n_valid + n_bad):
-        toks, expected, fault = gen_expand_case(rng, i >= n_valid)
+    todo = [gen_expand_case(rng, i >= n_valid) for i in range(n_valid + n_bad)]
+    todo += [(toks, None, 'exhaustive') for k, toks in exhaustive_expand()
+             if k <= max_exhaustive]
+    for toks, expected, fault in todo:
         out = impl_expand(toks, expected)
         tables = g.c_tables(toks, {})
         cases.append(cpair(tables, clist(cstr(t) for t in toks),
@@ -782,49 +784,102 @@ CORPUS = [
 ]
 
 
-def corpus(res):
-    '''Every corpus deck through the whole converter (VOLU ids, NOTE, probe
-    points) and through parse() (skip list), against the hand-written answer.'''
-    for name, cells, cards, zero, *rest in CORPUS:
-        extra = rest[0] if rest else {}
-        text = corpus_deck(cells, cards, extra)
-        res.seen(('corpus', name), nontrivial=True)
-        res.count('corpus')
-        ids = [c[0] for c in cells]
-        filled = extra.get('filled', [])
-        listed_expected = sorted(zero + extra.get('universe_zero', []))
-        conv = impl.convert(text)
-        if not conv.ok or conv.text is None:
-            res.violation('impl-violation', f'corpus deck {name} rejected: '
-                          f'{conv.exc}: {conv.msg[:150]}',
+def check_zero_deck(res, name, cells, cards, zero, extra, parse=True):
+    '''One hand-described deck through the whole converter (VOLU ids, NOTE,
+    probe points) and through parse() (skip list), against the given answer.'''
+    text = corpus_deck(cells, cards, extra)
+    ids = [c[0] for c in cells]
+    filled = extra.get('filled', [])
+    listed_expected = sorted(zero + extra.get('universe_zero', []))
+    conv = impl.convert(text)
+    if not conv.ok or conv.text is None:
+        res.violation('impl-violation', f'deck {name} rejected: '
+                      f'{conv.exc}: {conv.msg[:150]}',
+                      {'input': {'deck': text}, 'expected': zero},
+                      found_input=True)
+        return
+    t4 = impl.T4File(conv.text)
+    volu = set(t4.volumes)
+    note = g.note_list(conv.stdout)
+    live = [k for k in ids if k not in zero and k not in filled]
+    if sorted(volu & set(ids)) != sorted(live) \
+            or sorted(note) != listed_expected:
+        res.violation('impl-violation',
+                      f'deck {name}: zero-importance cells {zero}; '
+                      f'VOLU {sorted(volu & set(ids))} NOTE {note}',
+                      {'input': {'deck': text}, 'expected': zero},
+                      found_input=True)
+    if all(len(c) == 2 for c in cells):
+        # no LIKE cell: pairwise disjoint regions, look at what is written
+        probes = [(c[0], k, c[0] in zero) for k, c in enumerate(cells)]
+        for cid, what in point_failures(probes, t4):
+            res.violation('impl-violation', f'deck {name}: {what}',
                           {'input': {'deck': text}, 'expected': zero},
                           found_input=True)
-            continue
-        t4 = impl.T4File(conv.text)
-        volu = set(t4.volumes)
-        note = g.note_list(conv.stdout)
-        live = [k for k in ids if k not in zero and k not in filled]
-        if sorted(volu & set(ids)) != sorted(live) \
-                or sorted(note) != listed_expected:
-            res.violation('impl-violation',
-                          f'corpus deck {name}: zero-importance cells {zero}; '
-                          f'VOLU {sorted(volu & set(ids))} NOTE {note}',
-                          {'input': {'deck': text}, 'expected': zero},
-                          found_input=True)
-        if all(len(c) == 2 for c in cells):
-            # no LIKE cell: pairwise disjoint regions, look at what is written
-            probes = [(c[0], k, c[0] in zero) for k, c in enumerate(cells)]
-            for cid, what in point_failures(probes, t4):
-                res.violation('impl-violation', f'corpus deck {name}: {what}',
-                              {'input': {'deck': text}, 'expected': zero},
-                              found_input=True)
+    if parse:
         result = g.run_impl(text, [])
         if result[0] != 'ok' or sorted(result[2]) != listed_expected:
             res.violation('impl-violation',
-                          f'corpus deck {name}: zero-importance cells {zero}; '
+                          f'deck {name}: zero-importance cells {zero}; '
                           f'parse() skip list {result[2] if result[0] == "ok" else result[1]}',
                           {'input': {'deck': text}, 'expected': zero},
                           found_input=True)
+
+
+def corpus(res):
+    for name, cells, cards, zero, *rest in CORPUS:
+        res.seen(('corpus', name), nontrivial=True)
+        res.count('corpus')
+        check_zero_deck(res, 'corpus ' + name, cells, cards, zero,
+                        rest[0] if rest else {})
+
+
+def exhaustive_decks(res, quick):
+    '''EXHAUSTIVE small domain: 3 level-0 cells, two particle types, every
+    importance vector in {0,1}^3 x {0,1}^3 (the all-zero one excepted: nothing
+    to convert), given on IMP data cards, on the cell cards, or (thorough) with
+    the second cell FILLed.'''
+    import itertools
+    k = 0
+    for imp_n in itertools.product('01', repeat=3):
+        for imp_p in itertools.product('01', repeat=3):
+            zero = [i + 1 for i in range(3) if imp_n[i] == '0' and imp_p[i] == '0']
+            if len(zero) == 3:
+                continue
+            k += 1
+            variants = []
+            if not quick or k % 2 == 0:
+                variants.append(('data', [(1, ''), (2, ''), (3, '')],
+                                 ['imp:n ' + ' '.join(imp_n),
+                                  'imp:p ' + ' '.join(imp_p)], {}))
+            if not quick or k % 2 == 1:
+                variants.append(('cell', [(i + 1, f'imp:n={imp_n[i]} imp:p={imp_p[i]}')
+                                          for i in range(3)], [], {}))
+            if not quick or k % 8 == 0:
+                variants.append(('fill', [(1, ''), (2, 'fill=5'), (3, '')],
+                                 ['imp:n ' + ' '.join(imp_n) + ' 1 1',
+                                  'imp:p ' + ' '.join(imp_p) + ' 1 1'],
+                                 {'cells': ['201 0 -90 u=5', '202 0 90 u=5'],
+                                  'surfs': ['90 px 0'], 'filled': [2]}))
+            for kind, cells, cards, extra in variants:
+                res.seen(('exhaustive', kind, imp_n, imp_p), nontrivial=True)
+                res.count('exhaustive:' + kind)
+                check_zero_deck(res, f'exhaustive {kind} n={"".join(imp_n)} '
+                                f'p={"".join(imp_p)}', cells, cards, zero, extra,
+                                parse=False)
+
+
+EXHAUSTIVE_TOKENS = ['0', '1', 'r', '2r', 'i', '2I', '0m', '2M', 'j', '1log']
+
+
+def exhaustive_expand():
+    '''Every token list  v t1 .. tk  (v in 0/1, k <= 2 quick / 3 thorough) over
+    EXHAUSTIVE_TOKENS, for tie:expand.'''
+    import itertools
+    for first in ('0', '1'):
+        for k in (1, 2, 3):
+            for tail in itertools.product(EXHAUSTIVE_TOKENS, repeat=k):
+                yield k, [first] + list(tail)
 
 
 ALL_ZERO = '''all cells of zero importance
@@ -1042,11 +1097,13 @@ def run(res, tier, seed, proofs_ok):
     with cov:
         corpus(res)
         all_zero_deck(res)
-        expand_ties(res, rng, 300 if quick else 4000, 200 if quick else 3000)
-        parse_ties(res, rng, 300 if quick else 3000, 200 if quick else 1500)
+        exhaustive_decks(res, quick)
+        expand_ties(res, rng, 300 if quick else 3000, 200 if quick else 2000,
+                    2 if quick else 3)
+        parse_ties(res, rng, 300 if quick else 2000, 200 if quick else 1000)
     coverage_obligation(res, cov)
-    lattice_sweep(res, 30 if quick else 300, rng)
-    conversion_sweep(res, rng, 250 if quick else 2500, 40 if quick else 250)
+    lattice_sweep(res, 30 if quick else 150, rng)
+    conversion_sweep(res, rng, 250 if quick else 1800, 40 if quick else 200)
 
 
 def coverage_obligation(res, cov):
